@@ -144,6 +144,16 @@ func init() {
 				fmt.Fprintf(g.w, "%s%d%s\n", g.pfx, g.n, line[j:])
 			}
 		}
+		if f, ok := generators["C17compat"]; ok {
+			for _, line := range captureGen(g, f) {
+				j := strings.Index(line, " ; ")
+				if j < 0 {
+					continue
+				}
+				g.n++
+				fmt.Fprintf(g.w, "%s%d%s\n", g.pfx, g.n, line[j:])
+			}
+		}
 		if f, ok := generators["C08"]; ok {
 			for i, line := range captureGen(g, f) {
 				if !g.thorough() && i%2 != 0 {
